@@ -80,6 +80,13 @@ class RepoSim:
         os.makedirs(os.path.dirname(p), exist_ok=True)
         with open(p, "w") as f:
             f.write(content(c))
+        # many tools preserve timestamps (cp -p, rsync -a, tar x, mv of an older file): every other write gets an old
+        # mtime, so nothing may rely on "modified after the checkpoint was saved"
+        self._nwrites = getattr(self, "_nwrites", 0) + 1
+        if self._nwrites % 2 == 0:
+            # distinct per write: an identical (mtime, size) pair would make git itself miss the change (racy stat cache)
+            old = 1000000000 + self._nwrites * 7
+            os.utime(p, (old, old))
 
     def map_path(self, s):
         return self.path2id.get(s, "<unmappable:%s>" % s)
@@ -299,19 +306,21 @@ def bulk_behaviour(bins, beh, n, rng):
         sim.act({"a": "cp_update", "id": 1, "pending": False})
         # touch a subset, record them as pending, touch a few again
         sub = rng.sample(names, min(len(names), 130))
-        for nm in sub:
+        for k, nm in enumerate(sub):
+            c = 35 + (k % 4)                   # more than 50 pending paths with differing contents
             with open(os.path.join(fx.repo, nm), "w") as f:
-                f.write(content(35))
-            sim.wt[nm] = 35
-            sim.events.append({"ev": "write", "p": nm, "c": 35})
+                f.write(content(c))
+            sim.wt[nm] = c
+            sim.events.append({"ev": "write", "p": nm, "c": c})
         sim.analyze()
         sim.act({"a": "cp_update", "id": 1, "pending": True})
         sim.analyze()
         for nm in sub[:7]:
             with open(os.path.join(fx.repo, nm), "w") as f:
-                f.write(content(36))
-            sim.wt[nm] = 36
-            sim.events.append({"ev": "write", "p": nm, "c": 36})
+                f.write(content(40))
+            os.utime(os.path.join(fx.repo, nm), (1000000500 + len(nm), 1000000500 + len(nm)))
+            sim.wt[nm] = 40
+            sim.events.append({"ev": "write", "p": nm, "c": 40})
         sim.analyze()
         # a large file recorded as pending and then changed only beyond its first 2 MiB must be reported again
         big = names[1]
